@@ -290,12 +290,17 @@ pub mod verif_plan_cache {
         (*super::get_or_generate_source_block_encoding_plan(symbol_count)).clone()
     }
 
-    // verification hook H8: the shared handle itself, so that a harness holding only a Weak can
-    // observe how long the cache keeps a plan alive
-    pub fn get_or_generate_shared(
-        symbol_count: u16,
-    ) -> super::Arc<super::SourceBlockEncodingPlan> {
-        super::get_or_generate_source_block_encoding_plan(symbol_count)
+    // verification hook H8: weak handles to the plans the cache holds (read-only, no lookup is
+    // performed), so that a harness can observe how long the cache keeps a plan alive
+    pub fn snapshot_weak() -> Vec<(u16, std::sync::Weak<super::SourceBlockEncodingPlan>)> {
+        let guard = super::source_block_encoding_plan_cache()
+            .lock()
+            .unwrap_or_else(|poisoned| poisoned.into_inner());
+        guard
+            .plans
+            .iter()
+            .map(|(k, plan)| (*k, super::Arc::downgrade(plan)))
+            .collect()
     }
 }
 #[derive(Clone, Debug, PartialEq, Eq)]
